@@ -120,11 +120,22 @@ def main(pid, tier, seed, replay_path=None):
             for _ in range(2 if tier == "quick" else 6):
                 s0 = rng.randint(0, max(0, size - 1))
                 fl.append(("zero", rel, (s0, rng.choice([1, 4, 8, 16, 64]))))
+        # the first 128 bits of a packed Cap'n Proto file hold the root pointer and the section sizes / list pointers of the
+        # root struct: one per-stop file and one per-line file get every one of them flipped, in every tier (D14 was bits 32
+        # and 33 of a per-stop file: parallel lists of unequal length)
+        header_flips = []
+        for prefix in ("nodes/", "lines/"):
+            cands = [rel for rel in files if rel.startswith(prefix)]
+            if cands:
+                rel = cands[0]
+                size = os.path.getsize(os.path.join(base, rel))
+                header_flips += [("flip", rel, b) for b in range(min(128, size * 8))]
         if tier == "quick":
             # per-stop and per-line files: a sample of them gets the full treatment, collections always
             coll = [f for f in fl if "/" not in f[1]]
             sub = [f for f in fl if "/" in f[1]]
             fl = coll + rng.sample(sub, min(len(sub), 150))
+        fl += [f for f in header_flips if f not in fl]
         for fi, f in enumerate(fl):
             cache = os.path.join(d, "f%d_%05d" % (di, fi))
             faults.apply_file_fault(base, cache, f)
